@@ -13,7 +13,7 @@ from .. import wbk
 
 ID = 'C15'
 LEVEL = 'exploration'
-BUDGET_S = {'quick': 150, 'thorough': 1800}
+BUDGET_S = {'quick': 300, 'thorough': 1800}
 RULE = ('grid points per function: DATE(y,m,d) y in {1904,1999,2000,2023,2024,2100} x m in -30..40 x d in -800..800 '
         '(quick: |d|<=62 plus stride 13) with YEAR/MONTH/DAY of the result; EDATE/EOMONTH for days of 2019..2024 x offsets -60..60; '
         'DATEDIF D/M/Y/YM for start days x (k months +- 2 days, k=0..72) plus a background stride; NETWORKDAYS for start days x '
